@@ -31,6 +31,12 @@ func (p *verifCPlugin) MergeUsing(segments []segment.Segment, drops []*roaring.B
 	if verifMergeHook != nil {
 		verifMergeHook()
 	}
+	// like zap's merge, give up when the caller's cancel channel is closed
+	select {
+	case <-closeCh:
+		return nil, 0, segment.ErrClosed
+	default:
+	}
 	var ids []byte
 	newNums := make([][]uint64, len(segments))
 	for i, sg := range segments {
